@@ -106,6 +106,17 @@ def run_case(ctx, res, case, lines, post):
                                    vectorized=rng.random() < 0.5)
     holder['in_vars'] = list(comp.inputs)
     holder['out_vars'] = [comp.outputs[o] for o in out_names]
+    if rng.random() < 0.3:
+        # life-cycle: the component was first trained on ANOTHER model along another history and then cleared — nothing of
+        # that may survive into the surrogate of the real polynomial
+        real = holder['polys']
+        holder['polys'] = {o: [(Fraction(7, 2), (0,) * nin), (Fraction(-3), tuple(1 if d == 0 else 0 for d in range(nin)))]
+                           for o in out_names}
+        cc.random_history(random.Random(case['fseed'] + 9), comp, max(2, case['nsteps'] - 1))
+        comp.clear()
+        rec.calls.clear()
+        holder['polys'] = real
+        res.hit('trained-on-another-model-then-cleared')
     try:
         for a, b in hist:
             comp.activate_index(a, b)
